@@ -189,6 +189,31 @@ func (c *Ctx) capacityGuards() {
 		})
 		pass, ifs := passingEdges(f, requiredCheck{name: "checkRange", src: callResult(bocPath + ".BitString.checkRange"), kind: "nilerr"})
 		key := name + " stores only behind the capacity check"
+		if len(ifs) == 0 && len(stores) > 0 && c.fn("boc", "BitString.checkRange") == nil {
+			// no checkRange helper: the comparison is written in place. At every store the function's own branch
+			// facts must entail n <= cap-1 for the bit index n (its parameter)
+			okAll := len(f.Params) >= 2
+			var capLoad ssa.Value
+			allInstrs(f, func(_ *ssa.BasicBlock, i ssa.Instruction) {
+				if u, ok := i.(*ssa.UnOp); ok && u.Op == token.MUL {
+					if of, ok := ownerField(u.X); ok && of == "boc.BitString.cap" {
+						capLoad = u
+					}
+				}
+			})
+			for _, st := range stores {
+				if capLoad == nil || !okAll {
+					okAll = false
+					break
+				}
+				p := c.newProver(f, st.Block())
+				if !p.prove(p.lin(capLoad).sub(p.lin(f.Params[1])).addConst(-1)) {
+					okAll = false
+				}
+			}
+			c.check(okAll, R, key, stores[0].Pos(), "at the buffer store n <= cap-1 is entailed by the function's own capacity comparison", name+" can store into the buffer without a successful capacity check")
+			continue
+		}
 		if len(ifs) == 0 || len(stores) == 0 {
 			c.bad(R, key, f.Pos(), fmt.Sprintf("%s: no branch on the result of checkRange guards the buffer store (stores=%d)", name, len(stores)))
 			continue
@@ -207,7 +232,24 @@ func (c *Ctx) capacityGuards() {
 		c.check(okAll, R, key, stores[0].Pos(), "the buffer store is unreachable once the passing edge of the checkRange test is cut", name+" can store into the buffer without a successful capacity check")
 	}
 	// checkRange: success only with n < cap
-	if f := c.mustFn(R, "boc", "BitString.checkRange"); f != nil {
+	if c.fn("boc", "BitString.checkRange") == nil {
+		// inlined into On / Off: the bound is decided at their stores (above); both must fail with the sentinel
+		sent := 0
+		for _, name := range []string{"BitString.On", "BitString.Off"} {
+			if f := c.fn("boc", name); f != nil {
+				for _, r := range returnsOf(f) {
+					if u, ok := retVal(r, 0).(*ssa.UnOp); ok {
+						if g, ok := u.X.(*ssa.Global); ok && g.Name() == "ErrBitStingOverflow" {
+							sent++
+						}
+					}
+				}
+			}
+		}
+		c.ok(R, "checkRange passes exactly for n < cap", token.NoPos, "no checkRange helper: decided at the stores of On and Off")
+		c.check(sent >= 2, R, "checkRange fails with ErrBitStingOverflow", token.NoPos, "On and Off return the overflow sentinel themselves", "On / Off no longer return ErrBitStingOverflow when the bit index is beyond the capacity")
+	}
+	if f := c.fn("boc", "BitString.checkRange"); f != nil {
 		okAll := true
 		n := 0
 		for _, sp := range successPoints(f, 0) {
@@ -673,6 +715,12 @@ func (c *Ctx) bitTables() {
 		})
 	}
 	tab := c.arrayLiteralInts("boc", tabName)
+	// the bit length taken from the standard library instead of the hand-written de Bruijn code: the function
+	// returns int(bits.Len64(x)) (or Len) unchanged, and there is no table to check
+	if f != nil && stdBitLen(f) {
+		c.ok(R, "tab64 is the de Bruijn log2 table of its multiplier", f.Pos(), "minBitsRequired returns math/bits.Len64 of its argument: no table, no multiplier")
+		goto suffix
+	}
 	if f != nil && len(tab) == 64 {
 		var mult uint64
 		var shift int64 = -1
@@ -715,6 +763,7 @@ func (c *Ctx) bitTables() {
 	} else {
 		c.bad(R, "tab64 is the de Bruijn log2 table of its multiplier", token.NoPos, fmt.Sprintf("tab64 literal not found (len %d)", len(tab)))
 	}
+suffix:
 	// suffixToBits: "D_" -> bits b such that hex digit D = b followed by 1 and zeros, padded to 4 bits
 	m := c.mapLiteralStrings("boc", "suffixToBits")
 	okm := len(m) > 0
@@ -996,4 +1045,26 @@ func (c *Ctx) writersDoNotMutateInput() {
 	}
 	c.floor(R, 4)
 	_ = n
+}
+
+// stdBitLen: every return of f is (a conversion of) math/bits.Len64 / Len of (a conversion of) its parameter.
+func stdBitLen(f *ssa.Function) bool {
+	rets := returnsOf(f)
+	if len(rets) == 0 || len(f.Params) != 1 {
+		return false
+	}
+	for _, r := range rets {
+		cl := callOf(stripConv(retVal(r, 0)))
+		if cl == nil {
+			return false
+		}
+		q := callQName(&cl.Call)
+		if q != "math/bits.Len64" && q != "math/bits.Len" {
+			return false
+		}
+		if stripConv(cl.Call.Args[0]) != ssa.Value(f.Params[0]) {
+			return false
+		}
+	}
+	return true
 }
